@@ -668,13 +668,17 @@ def _search_wildcard(elem, session, query=None):
     if value is None or value == "":
         value = "*"
 
+    # Only '*' and '?' are wild cards, escape the SQL LIKE wild cards
+    for char in ("\\", "%", "_"):
+        value = value.replace(char, f"\\{char}")
+
     value = value.replace("*", "%")
     value = value.replace("?", "_")
 
     if not query:
         query = session.query(Instance)
 
-    return query.filter(attr.like(value))
+    return query.filter(attr.like(value, escape="\\"))
 
 
 # Database table setup stuff
